@@ -464,3 +464,72 @@ def format_parts(e: ast.AST) -> Optional[List[Tuple[str, object]]]:
 def format_template(parts) -> str:
     """The literal text of format_parts() with `{}` for each expression."""
     return "".join(t if k == "lit" else "{}" for k, t in parts)
+
+
+def comprehension_over_base(cfg: CFG, at: int, comp: ast.AST, elem: str = "_e"):
+    """A comprehension read element-wise over ONE base sequence.  `for a, b in zip(A, B)` where A = [f(x) for x in S] and B = [g(x) for x in S] is the same
+    as `for _e in S` with a = f(_e), b = g(_e); `D[k(_e)]` where D = {k(x): v(x) for x in S} is v(_e).  Returns (base sequence text, {"key"/"value"/"elt": expr
+    rewritten over `_e`}) or None when the sequences are not visibly parallel to one base."""
+    import copy
+    from .model import norm
+    if not isinstance(comp, (ast.DictComp, ast.ListComp, ast.SetComp, ast.GeneratorExp)) or len(comp.generators) != 1 or comp.generators[0].ifs:
+        return None
+    gen = comp.generators[0]
+    if isinstance(gen.iter, ast.Call) and isinstance(gen.iter.func, ast.Name) and gen.iter.func.id == "zip" and isinstance(gen.target, ast.Tuple) \
+            and len(gen.target.elts) == len(gen.iter.args) and not gen.iter.keywords:
+        pairs = list(zip(gen.target.elts, gen.iter.args))
+    else:
+        pairs = [(gen.target, gen.iter)]
+    E = ast.Name(id=elem, ctx=ast.Load())
+
+    def subst(e, mapping):
+        class S(ast.NodeTransformer):
+            def visit_Name(self, n):
+                return copy.deepcopy(mapping[n.id]) if n.id in mapping and isinstance(n.ctx, ast.Load) else n
+        return S().visit(copy.deepcopy(e))
+
+    def single_def(name):
+        ds = cfg.reaching(at, name)
+        return ds[0].value if len(ds) == 1 and ds[0].kind == "assign" else None
+
+    base = None
+    mapping = {}
+    for tgt, seq in pairs:
+        if not isinstance(tgt, ast.Name):
+            return None
+        b, m = None, None
+        if isinstance(seq, ast.Name):
+            d = single_def(seq.id)
+            if isinstance(d, ast.Call) and isinstance(d.func, ast.Name) and d.func.id in ("list", "tuple") and len(d.args) == 1:
+                d = d.args[0]
+            if isinstance(d, (ast.ListComp, ast.GeneratorExp)) and len(d.generators) == 1 and not d.generators[0].ifs and isinstance(d.generators[0].target, ast.Name):
+                b, m = norm(d.generators[0].iter), subst(d.elt, {d.generators[0].target.id: E})
+            else:
+                b, m = seq.id, E
+        else:
+            b, m = norm(seq), E
+        if base is not None and b != base:
+            return None
+        base = b
+        mapping[tgt.id] = m
+
+    def dict_lookups(e):
+        class D(ast.NodeTransformer):
+            def visit_Subscript(self, n):
+                self.generic_visit(n)
+                if isinstance(n.value, ast.Name) and isinstance(n.ctx, ast.Load):
+                    d = single_def(n.value.id)
+                    if isinstance(d, ast.DictComp) and len(d.generators) == 1 and not d.generators[0].ifs and isinstance(d.generators[0].target, ast.Name) \
+                            and norm(d.generators[0].iter) == base:
+                        u = d.generators[0].target.id
+                        if norm(subst(d.key, {u: E})) == norm(n.slice):
+                            return subst(d.value, {u: E})
+                return n
+        return D().visit(e)
+    out = {}
+    if isinstance(comp, ast.DictComp):
+        out["key"] = dict_lookups(subst(comp.key, mapping))
+        out["value"] = dict_lookups(subst(comp.value, mapping))
+    else:
+        out["elt"] = dict_lookups(subst(comp.elt, mapping))
+    return base, out
